@@ -75,6 +75,23 @@ CHECKS['C02'] = (
     'where the eager expression on the whole array raises; Python scalars only.',
     'DESIGN.md section 6 C02')
 
+CHECKS['C03'] = (
+    'exhaustive enumeration of recordings x spike positions x window lengths x channel selectors x '
+    'chunk grids x spike vectors x store queries (space mode, three complete sub-products) against the '
+    'zero-padded window of the ground-truth array',
+    'Bounded exhaustive exploration in three sweeps. A: every spike sample of recordings of 1-7 samples '
+    'x 5 integer sample types x window lengths 1-6 and 2n+1 x 4 channel selectors as list and ndarray, '
+    'direct extraction on array and two-file readers. B: recordings of 5-7 samples in every '
+    'composition into <= 3 files x every chunk size 1..n+1, and compressed readers (chunk x threads x '
+    'cache): every sorted spike vector of length <= 3 (4) in int64/uint64 exported chunk by chunk, '
+    'loaded with np.load, then used as a subset store queried with every permutation of stored '
+    'spikes and every ordered subset of the stored channels. C: declared dtype vs bytes for 3 sample '
+    'dtypes x 6 factor types. D (with the dataset generator): TemplateModel routes. Five defects '
+    'found this way were repaired (see known_findings.json).',
+    'Store queries are restricted to channels stored for every queried spike; np.load is the '
+    'independent reader; recordings longer than 8 samples are not covered.',
+    'DESIGN.md section 6 C03')
+
 NOT_YET = {}
 
 ALL = ['C%02d' % i for i in range(1, 21)]
